@@ -20,7 +20,7 @@ from common import WorkerStats
 
 META = {
     'property': 'C06',
-    'lean_props': ['DoitModel.Props.C06'],
+    'lean_props': ['DoitModel.Props.C06', 'DoitModel.Props.C06b'],
     'level': 'proof',
     'models': ['M9'],
     'budget': {'quick': 60, 'thorough': 600},
@@ -44,8 +44,11 @@ META = {
     'level_note': 'Trusted/assumed: Lean kernel; A1 (json rejects proper prefixes), A2 (SQLite atomic commit), A3 '
                   '(dbm.dumb torn states) -- modelled as explicit choices, validated by fault enumeration, not proved; '
                   'process kill only (no power loss / page-cache loss); strace ptrace injection kills on syscall entry; '
-                  'the composition with get_status soundness (a legitimate record never makes a stale task up-to-date) is '
-                  'C03\'s theorem, checked here only by the monitor.',
+                  'the composition with get_status soundness is Props/C06b.lean (mix_inv / mix_sound over the M2 '
+                  'status model: records recovered per task from ANY earlier prefix of a faithful history keep the C03 '
+                  'invariant, so a skipped task really completed on the present content of its dependencies); the link '
+                  'between M9\'s abstract `Legit` records and M2\'s `Recovered` pairs is by construction of the two '
+                  'models (M9 record ids = whole M2 records), not a Lean theorem.',
     'rule': 'scenario = 2-4 tasks (own + shared file_dep, random task_dep DAG, optional failing task) x pre-history '
             '(no DB / full run / full run + edits) x backend (json, dbm.dumb, sqlite3) x runner (serial, -n 2, -n 2 -P '
             'thread) x --continue; kill cases = every modifying syscall on the DB files of the run (sampled per budget); '
